@@ -42,7 +42,10 @@ RULE = ("cutting-stock instances (roll width 5-20, 1-4 piece sizes <= width with
         "<= 12 columns, entries 0-3; initial columns cover every demanded row), each solved by solve_cg and "
         "solve_bp (solve_bp with max_nodes in {10,40,100} on generated instances, default on the hand-written "
         "ones), plus a small stream with max_iter in 0..3 and one with initial columns "
-        "that cannot cover the demands (excluded region); 15 % of the calls get an on_progress callback "
+        "that cannot cover the demands (excluded region); 40 x budget instances with 5-7 piece types (several > W/2, "
+        "near-duplicates, fillers; W 20-40, demands 1-3, total <= 12) plus those of 4000 (thorough 16000) such "
+        "candidates that the solve_bp mirror pre-screens as having >= 2 consecutive stalled LP values in the root "
+        "column generation (all whose stall lies across an integer, up to 40 others); 15 % of the calls get an on_progress callback "
         "(progress_interval 1/2/5, asking to stop from iteration 0/1/2/3 on or never); plus 160 x budget multi-call "
         "histories: 2-4 solves (solve_cg/solve_bp mixed) run one after the other in ONE process that share piece "
         "sizes / column set / demands while width and demands move narrow->wide, wide->narrow, same twice or mixed, "
@@ -77,6 +80,41 @@ def gen_cs(rng, big=False):
     if rng.random() < 0.03:
         dem = [0] * n
     return {"mode": "cs", "W": W, "sizes": sizes, "demands": dem, "cols": [], "init": []}
+
+
+def gen_cs_many(rng):
+    """Degenerate, bin-packing-like instances: 5-7 piece types (several above W/2, duplicates and
+    near-duplicates, small fillers), demands 1-3 with total <= 12 so that the exact optimum stays
+    cheap, W 20-40."""
+    W = rng.randint(20, 40)
+    n = rng.randint(5, 7)
+    sizes = [rng.randint(W // 2 + 1, W - 2) for _ in range(rng.randint(2, 4))]
+    while len(sizes) < n:
+        r = rng.random()
+        if r < 0.3:
+            sizes.append(max(1, min(W, rng.choice(sizes) + rng.choice([-1, 0, 0, 1]))))
+        elif r < 0.7:
+            sizes.append(rng.randint(2, max(2, W // 4)))
+        else:
+            sizes.append(rng.randint(W // 4, W // 2))
+    rng.shuffle(sizes)
+    dem = [rng.randint(1, 3) for _ in sizes]
+    while sum(dem) > 12:
+        i = rng.randrange(n)
+        if dem[i] > 1:
+            dem[i] -= 1
+    return {"mode": "cs", "W": W, "sizes": sizes, "demands": dem, "cols": [], "init": []}
+
+
+def screen_stalls(cands):
+    """Pre-screen with the solve_bp MIRROR (root column generation only, cheap): per candidate
+    (longest run of master-LP values that did not move after a new column, whether a run >= 2 sits
+    above an integer that the final root LP value drops below)."""
+    rep = Driver("Cut").run([["screen", c["W"], c["sizes"], c["demands"], 1000] for c in cands], chunks=14)
+    for r in rep:
+        if r and r[0] == "error":
+            raise Infra(f"screen request rejected: {r}")
+    return rep
 
 
 def gen_cols(rng, feasible_init=True):
@@ -432,7 +470,16 @@ def mirror_check(ctx, case, out, mirror, opt):
                 sum(c for _, c in m_plan) == m_bound == opt:
             ctx.count("mirror_optimal_certified_by_own_duals")
     if bp_extra:
-        _conv, _lb, root_int, root_side, fragile = bp_extra
+        _conv, _lb, root_int, root_side, fragile, root_stalls, node_stalls, across = bp_extra
+        # coverage of "tailing off": LP value unchanged after a new column, consecutively
+        if root_stalls >= 1:
+            ctx.count("bp_root_stalls>=1")
+        if root_stalls >= 2:
+            ctx.count("bp_root_stalls>=2")
+        if node_stalls >= 2:
+            ctx.count("bp_node_stalls>=2")
+        if across:
+            ctx.count("bp_root_stall_then_drop_across_integer")
         # bp_mirror_optimal_of_duals: OPTIMAL + checker verdict + root duals feasible (+ the side
         # condition when the root LP was integral) => true minimum
         if m_status == "OPTIMAL" and m_ok and m_raw and (root_side or not root_int):
@@ -674,7 +721,8 @@ def run_cases(ctx, units, do_shrink=True):
               "bp_mirror_optimal_side_condition_open", "r_trace_skipped_float_tie:agree",
               "r_trace_skipped_float_tie:differ", "timeouts", "excluded_region_hits",
               "dual_bound_checked", "optimal_certified_by_impl_duals", "history_units", "history_steps",
-              "on_progress:stop", "on_progress:never"):
+              "on_progress:stop", "on_progress:never", "bp_root_stalls>=1", "bp_root_stalls>=2",
+              "bp_node_stalls>=2", "bp_root_stall_then_drop_across_integer"):
         ctx.cov[k] = h.get(k, 0)
     ctx.cov["missing_theorems"] = ["master-LP mirror certifies ([S]: the simplex mirror reaches an LP optimum / returns "
                                    "an eps-feasible x on every input) - primal side checked per instance by checkPlan; "
@@ -706,6 +754,18 @@ def run(ctx, budget):
         cases += expand(gen_cols(rng), rng)
     for _ in range(20 * budget):
         cases += expand(gen_cols(rng, feasible_init=False))
+    # many piece types (fixed share) + candidates pre-screened by the mirror for stalled column
+    # generation ("tailing off"): all whose stall sits across an integer, up to 40 with >= 2 stalls
+    for _ in range(40 * budget):
+        cases += expand(gen_cs_many(rng), rng)
+    cands = [gen_cs_many(rng) for _ in range(4000 * (1 if budget == 1 else 4))]
+    scr = screen_stalls(cands)
+    strong = [c for c, r in zip(cands, scr) if r[1]]
+    weak = [c for c, r in zip(cands, scr) if r[0] >= 2 and not r[1]][:40 * (1 if budget == 1 else 4)]
+    ctx.cov["stall_screen"] = {"candidates": len(cands), "stalls>=2": sum(1 for r in scr if r[0] >= 2),
+                               "across_integer": len(strong)}
+    for c in strong + weak:
+        cases += [{**c, "fn": "solve_bp", "opts": {"max_nodes": 40}}, {**c, "fn": "solve_cg", "opts": {}}]
     units += [{"steps": [c]} for c in cases]
     units += [gen_history(rng) for _ in range(160 * budget)]
     run_cases(ctx, units)
